@@ -7,8 +7,8 @@ LEAN_MODULES = ["CatiiProps.C12"]
 USES_TRANSLATOR = True
 RULE = ("files from C10's exhaustive level and random small cases; for each file F every cut point 0 <= k < len(F) is "
         "loaded through the real loader (exhaustive over k, as the quantifier demands); the model's error class is "
-        "compared at every k. Non-trivial = a (file, k) pair with k >= 16 (header intact); distinct by (file, k)")
-ASSUMPTIONS = ["a torn write leaves a prefix of the intended bytes",
+        "compared at every k; in addition the writer itself is interrupted (a row-id array fails after h bytes: first/middle/last entry, h = 0, 1, 4, half, all but one byte; files up to 280 kB) and what it left on disk is loaded. Non-trivial = a (file, k) pair with k >= 16 (header intact); distinct by (file, k)")
+ASSUMPTIONS = ["a torn write leaves a prefix of the intended bytes (observed on interrupted saves: evidence counter interrupted_save:leaves_a_prefix)",
                "mmap.mmap(fd, n) raises when n exceeds the file size (validated on every prefix here)"]
 
 EXPECT = {"header": "RuntimeError", "version": "RuntimeError", "structShort": "error", "mmapShort": "ValueError"}
@@ -34,6 +34,62 @@ def check_file(ctx, ld, case, b, reqs, pend):
     pend.append((case, res))
 
 
+class Interrupted:
+    """a row-id array whose write is cut short: `h` bytes reach the file, then the device is full"""
+
+    def __init__(self, arr, h):
+        self.arr, self.h, self.dtype = arr, h, arr.dtype
+
+    def __len__(self):
+        return len(self.arr)
+
+    def tofile(self, f):
+        f.write(self.arr.tobytes()[:self.h])
+        f.flush()
+        raise OSError(28, "No space left on device")
+
+
+def interrupted_saves(ctx, ld):
+    """the writer itself is interrupted (one of its row-id arrays fails part-way, as on a full disk) and what is left in
+    the file is loaded: this does not assume that a torn write leaves a prefix - it observes what the writer leaves"""
+    import os
+    import tempfile
+    import numpy as np
+    from catii.indxio import IndxIO
+    sizes = [[3, 2, 4], [1, 0, 2], [30000, 5, 30000], [70001, 3]] if ctx.scale == 1 else \
+        [[3, 2, 4], [1, 0, 2], [5], [30000, 5, 30000], [70001, 3], [16000, 16000, 16000, 16000, 16000], [200000]]
+    for lens in sizes:
+        arrays = [np.arange(7, 7 + 3 * L, 3, dtype=np.uint32) for L in lens]
+        for j in range(len(lens)):
+            for h in sorted({0, 1, 4, 2 * lens[j], max(0, 4 * lens[j] - 1)}):
+                if h > 4 * lens[j]:
+                    continue
+                d = {(q + 1,): (Interrupted(a, h) if q == j else a) for q, a in enumerate(arrays)}
+                case = {"interrupted_save": {"entry_lengths": lens, "failing_entry": j, "bytes_of_it_written": h}}
+                ctx.case(case, nontrivial=True)
+                ctx.evaluations += 1
+                with tempfile.TemporaryDirectory(prefix="catii-indx-") as td:
+                    path = os.path.join(td, "x.indx")
+                    with open(path, "wb") as f:
+                        try:
+                            IndxIO.save(f, d, 0, np.dtype(np.uint32))
+                            raised = False
+                        except OSError:
+                            raised = True
+                    with open(path, "rb") as f:
+                        left = f.read()
+                if not raised:
+                    ctx.oracle_fail("save swallowed the write error of entry %d" % j, case, cls="C12-torn-accepted")
+                    continue
+                full = X.spec_encode([[[q + 1], a.tolist()] for q, a in enumerate(arrays)], 0)
+                ctx.hit("interrupted_save:" + ("leaves_a_prefix" if left == full[:len(left)] else "leaves_something_else"))
+                lo = ld.load(left)
+                if lo[0] == "ok":
+                    ctx.oracle_fail("a save interrupted in entry %d of %s (after %d bytes of it) left a %d-byte file (complete: %d bytes) "
+                                    "that loads and returns %d entries" % (j, lens, h, len(left), len(full), len(lo[1])), case,
+                                    cls="C12-torn-accepted")
+
+
 def run(ctx):
     core.load_catii()
     ld = X.Loader()
@@ -54,6 +110,7 @@ def run(ctx):
             if sv[0] == "ok" and len(sv[1]) <= 3000:
                 check_file(ctx, ld, case, sv[1], reqs, pend)
         ctx.exhaustive.append("every cut point of each of %d files" % len(pend))
+        interrupted_saves(ctx, ld)
         if ctx.oracle_only:
             return
         for (case, res), m in zip(pend, ctx.model.run(reqs)):
@@ -69,6 +126,14 @@ def run(ctx):
 def replay(ctx, rep):
     core.load_catii()
     c = rep["case"]
+    if "interrupted_save" in c:
+        c2 = core.Ctx(ID, "quick", 0)
+        ld = X.Loader()
+        try:
+            interrupted_saves(c2, ld)
+        finally:
+            ld.close()
+        return not c2.oracle_failures
     ld = X.Loader()
     try:
         sv = X.impl_save(c["entries"], c["common"])
